@@ -60,7 +60,11 @@ EXERCISED = (
     "subscription keeps alive; frames addressed to other clients; more than a hundred consoles "
     "answering a search; zones added at the console during an outage; retry lifetimes of an "
     "hour and outages of many minutes; held messages expiring while a connection attempt is "
-    "still in flight")
+    "still in flight; the library's warnings silenced (logger level ERROR); subscribers that "
+    "edit the message objects they are handed; byte-identical frames in a row; the socket "
+    "closed and re-opened under a running heartbeat manager; the console not reading for "
+    "minutes and then reading again; installations without any sensor or without zones; one "
+    "console answering a search from two addresses")
 
 T = """You are helping to evaluate a verification harness by producing a *subtle, realistic regression* in a Python library.
 
